@@ -1,0 +1,25 @@
+//go:build verif
+
+// Contracts for the message extractor, checked by /verif/govc (comment-only).
+package main
+
+// C11: extraction visits every node of every template; a message becomes one
+// catalogue entry carrying its id (and the plural variable when the message is
+// a plural), its meaning as context, and the msgid / msgid_plural that
+// pomsg derives; indexing the message's children cannot panic (an empty
+// {msg}{/msg} has none).
+//@ func (extractor).extract
+//@   props C11
+//@   nosafety nil nilcall assert nilmap
+//@   noterm
+//@   modifies *
+//@   ghost visited int = 0
+//@   ghost nchildren int = -1
+//@   at call pomsg.Validate#0 assert[validated-before-it-is-extracted;C11] arg0 == unbox(node, *ast.MsgNode)
+//@   at call pomsg.Msgid#0 assert[msgid-of-this-message;C11] arg0 == unbox(node, *ast.MsgNode)
+//@   at call pomsg.MsgidPlural#0 assert[plural-msgid-of-this-message;C11] arg0 == unbox(node, *ast.MsgNode)
+//@   at call ast.ParentNode.Children#1 after set nchildren = len(res)
+//@   at call (extractor).extract#0 after set visited = visited + 1
+//@   ensures[every-child-is-searched-for-messages;C11] implements(node, ast.ParentNode) && !typeis(node, *ast.MsgNode) ==> visited == nchildren
+//@   loop 0
+//@     invariant[children-so-far;C11] visited == rangeindex + 1 && visited <= nchildren
